@@ -40,6 +40,42 @@ Definition C11_no_write_to_dead_literal_statement : Prop :=
 Theorem C11_no_write_to_dead_literal_refuted : exists s, run true init sched_window = Some s /\ In (0, 0, true) (atts s) /\ late (gens s 0) = [].
 Proof. exact ClientConnProofs.literal_no_write_to_dead_refuted. Qed.
 
+(* --- "a call issued after the close succeeds without waiting for its timeout" -------------------------- *)
+(* safety-and-possibility form.  [reach_int s s'] : s' is reached from s by steps of the client's own send and
+   receive goroutines only — no further call, no peer action, no ticker, no idle close.
+   Whenever the current connection is healthy and a request is pending ANYWHERE in the client (send queue,
+   failure queue, hands of any send goroutine incl. a stale one), the goroutines alone can bring it to the
+   peer over the current connection.  (In the pinned client the request of C11_pinned_refuted stays in the
+   failure queue until another call is made.) *)
+Theorem C11_delivery : forall ls s c m, run true init ls = Some s ->
+  cur s = Some c -> dead (gens s c) = false -> peerc (gens s c) = false -> pending s m ->
+  exists s', reach_int s s' /\ cur s' = Some c /\ dead (gens s' c) = false /\ peerc (gens s' c) = false /\ In m (got (gens s' c)).
+Proof. exact ClientConnProofs.delivery_possible. Qed.
+
+(* a call issued when the loss is known: ReConnect dials a fresh connection and the request can reach the peer over it *)
+Theorem C11_call_after_known_close : forall ls s m s1, run true init ls = Some s -> closedF s = true ->
+  run true s [LReconnect; LEnq m] = Some s1 ->
+  cur s1 = Some (ngen s) /\ closedF s1 = false /\
+  exists s', reach_int s1 s' /\ cur s' = Some (ngen s) /\ dead (gens s' (ngen s)) = false /\ In m (got (gens s' (ngen s))).
+Proof. exact ClientConnProofs.call_after_known_close. Qed.
+
+Theorem C11_delivery_example : exists s, run true init
+    [LLogEnq 0; LReconnect; LEnq 0; LSTop 0; LSPoll 0; LSBlkQueue 0; LSCheck 0; LSHook 0; LSWriteOk 0; LSTop 0; LSPoll 0;
+     LLogPClose 0; LPeerClose 0; LRClose 0; LLogEnq 1; LReconnect; LEnq 1; LSBlkQueue 0] = Some s /\
+  cur s = Some 1 /\ dead (gens s 1) = false /\ peerc (gens s 1) = false /\ pending s 1 /\ sp (gens s 0) = SCheck 1.
+Proof. exact ClientConnProofs.delivery_example. Qed.
+
+(* the liveness form, NOT PROVED (the model has no fairness notion; C11_delivery is its possibility half, the
+   latency monitor of the harness its run-time half): in every infinite run in which the current connection
+   stays healthy and the client's goroutines are not starved, the pending request reaches the peer *)
+Definition C11_delivery_liveness_statement : Prop :=
+  forall (sched : nat -> label) (sts : nat -> st) c m,
+    (exists ls, run true init ls = Some (sts 0)) ->
+    (forall n, step true (sts n) (sched n) = Some (sts (S n))) ->
+    (forall n, cur (sts n) = Some c /\ dead (gens (sts n) c) = false /\ peerc (gens (sts n) c) = false) ->
+    (forall n l, internal l = true -> step true (sts n) l <> None -> exists k, n <= k /\ internal (sched k) = true) ->
+    pending (sts 0) m -> exists n, In m (got (gens (sts n) c)).
+
 (* --- the pinned client violates all clauses (design-time defect, reproduced by the harness) ------------- *)
 Theorem C11_pinned_refuted : exists s, run false init sched_defect = Some s /\
   In (0, 1, true) (atts s) /\ In 1 (late (gens s 0)) /\
@@ -58,6 +94,9 @@ Print Assumptions C11_loss_is_local.
 Print Assumptions C11_loss_is_local_step.
 Print Assumptions C11_redial_only_after_loss.
 Print Assumptions C11_no_write_to_dead.
+Print Assumptions C11_delivery.
+Print Assumptions C11_call_after_known_close.
+Print Assumptions C11_delivery_example.
 Print Assumptions C11_no_write_to_dead_literal_refuted.
 Print Assumptions C11_pinned_refuted.
 Print Assumptions C11_repaired_example.
